@@ -7,6 +7,7 @@
      Layer::swap_char      : tmp = get_char(p1); set_char(p1, get_char(p2)); set_char(p2, tmp)   (no check) *)
 From Coq Require Import List ZArith NArith Bool Arith Lia.
 From IE Require Import Gen.UndoGen Model.Undo Model.EditModel Model.EditOps Proofs.LayerProofs.
+(* also: the concrete document and history used by the non-vacuity Examples of Props/C08.v *)
 Import ListNotations.
 Local Open Scope Z_scope.
 
@@ -52,3 +53,9 @@ Lemma swap_old_loses_char_refuted :
     get_char (l_swap_char_old (l_swap_char_old L0 0 0 (-1) 0) 0 0 (-1) 0) 0 0 = invisible /\
     get_char (l_swap_char (l_swap_char L0 0 0 (-1) 0) 0 0 (-1) 0) 0 0 = cA.
 Proof. eexists. repeat split; vm_compute; reflexivity. Qed.
+
+(* ------------------------------------------------------------------ data of the non-vacuity Examples in Props/C08.v *)
+Definition ex_doc : E := mkEs (mkE 6 4 [plain_layer 6 4 false] 0 None false 0 0) [] [].
+Definition ex_tab : N -> option (N -> N) := fun _ => Some (fun ch => if (ch =? 81)%N then 79%N else ch).
+Definition ex_hist : list (E -> res E) :=
+  [api_set_char 5 3 cQ; api_set_char 0 0 cQ; api_set_layer_size 0 3 2; api_flip_x ex_tab; api_center; api_add_new_layer 0].
